@@ -122,7 +122,7 @@ def m_from_vec(it, a, ty, callee):
 def m_extend(it, a, ty, callee):
     p, src = a
     v = it.load(p)
-    it.store(p, byte_seq(v.fields + it.load(src).fields))
+    it.store(p, byte_seq(tuple(v.fields) + tuple(as_bytes(it, src))))
     return UNIT
 
 
@@ -279,6 +279,12 @@ def m_concat(it, a, ty, callee):
     return Seq(out, 'vec')
 
 
+def m_poll_next_unpin(it, a, ty, callee):
+    """StreamExt::poll_next_unpin(&mut S, cx) = Pin::new(S).poll_next(cx)"""
+    m = re.match(r'^<(.*) as futures::StreamExt>::poll_next_unpin$', callee, re.S)
+    return it.call('<%s as futures::Stream>::poll_next' % m.group(1), [Adt(PIN, 0, [a[0]]), a[1]], ty)
+
+
 def m_to_vec(it, a, ty, callee):
     return Seq(as_bytes(it, a[0]), 'vec')
 
@@ -303,6 +309,7 @@ def install(it):
     A = it.add_model
     A(r'(?:std|core)::slice::<impl \[u8\]>::to_vec', m_to_vec)
     A(r'bytes::Bytes::to_vec', m_to_vec)
+    A(r'<.* as futures::StreamExt>::poll_next_unpin', m_poll_next_unpin)
     A(r'(?:std|core)::slice::<impl \[&\[u8\]\]>::concat::<u8>', m_concat)
     A(r'<bytes::(Bytes|BytesMut) as std::convert::Into<std::vec::Vec<u8>>>::into', m_to_vec)
     A(r'<std::vec::Vec<u8> as std::convert::From<bytes::(Bytes|BytesMut)>>::from', m_to_vec)
